@@ -393,8 +393,9 @@ static void ga(const char *fmt, ...)
 static const char *gen_key(rng_t *r)
 {
     /* keys of different lengths and cases, one a beginning of another */
-    static const char *ks[] = { "k0", "k1", "k2", "k3", "k4", "k", "k10", "K1", "kk", "a", "z" };
-    return ks[rng_below(r, rng_chance(r, 1, 3) ? 11 : 5)];
+    static const char *ks[] = { "k0", "k1", "k2", "k3", "k4", "k", "k10", "K1", "kk", "a", "z",
+                                "\xc3\xa9t\xc3\xa9", "\xff", "k\xe9", "0", "\x80\x81" };      /* names that begin with, or hold, a byte above 0x7f (a letter in UTF-8 or Latin-1) next to plain ones: where they sort depends on whether a char is signed */
+    return ks[rng_below(r, rng_chance(r, 1, 3) ? 16 : 5)];
 }
 static void gen_piece(rng_t *r, int depth, int inside_args)
 {
